@@ -1,7 +1,7 @@
 #!/bin/bash
 # scripts/confirm_seed.sh <ID> <k>: confirm a sub-agent's seeded change in its scratch worktree /tmp/seed/<ID>:
 #   demo passes without the patch, fails with it; the 41 tests still pass with it. Copies to /verif/seeded/<ID>-<k>/ on success.
-ID=$1; K=$2; W=/tmp/seed/$ID; O=/tmp/seed/out/$ID
+ID=$1; K=$2; B=${SEEDBASE:-/tmp/seed}; KO=${KOFF:-0}; KK=$((K+KO)); W=$B/$ID; O=$B/out/$ID
 cd $W || exit 2
 git checkout -q -- . ; 
 cmd=$(grep -m1 -E "^\s*(\*|//)?\s*(gcc|cc|clang) " $O/demo$K.c | sed -E 's/^\s*(\*|\/\/)?\s*//; s/\*\/\s*$//')
@@ -19,15 +19,15 @@ t=$(ctest --test-dir _build -j8 2>&1 | grep -E "tests passed|tests failed")
 git checkout -q -- . ; rm -rf _build $O/demo$K.bin
 echo "clean-exit=$r0 patched-exit=$r1 tests: $t"
 if [ $r0 -eq 0 ] && [ $r1 -ne 0 ] && echo "$t" | grep -q "100% tests passed, 0 tests failed out of 41"; then
-  D=/verif/seeded/$ID-$K; mkdir -p $D; cp $O/patch$K.diff $D/patch.diff; cp $O/demo$K.c $D/demo.c; cp $O/notes$K.md $D/notes.md; tail -5 $O/demo$K.out > $D/demo.patched.out
-  python3 - "$ID" "$K" "$cmd" "$r0" "$r1" "$t" <<'PY'
+  D=/verif/seeded/$ID-$KK; mkdir -p $D; cp $O/patch$K.diff $D/patch.diff; cp $O/demo$K.c $D/demo.c; cp $O/notes$K.md $D/notes.md; tail -5 $O/demo$K.out > $D/demo.patched.out
+  python3 - "$ID" "$KK" "$cmd" "$r0" "$r1" "$t" "$W" <<'PY'
 import json,sys
-ID,K,cmd,r0,r1,t=sys.argv[1:7]
+ID,K,cmd,r0,r1,t,W=sys.argv[1:8]
 D='/verif/seeded/%s-%s'%(ID,K)
 notes=open(D+'/notes.md').read()
 json.dump({"property":ID,"seed":"%s-%s"%(ID,K),"origin":"fresh sub-agent given only the property text and a scratch worktree",
  "needs_to_manifest":notes.strip(),
- "ran":["git apply patch.diff in scratch worktree /tmp/seed/%s (HEAD of /repo)"%ID, cmd+"  -> exit %s without the patch, exit %s with it"%(r0,r1),
+ "ran":["git apply patch.diff in scratch worktree %s (HEAD of /repo)"%W, cmd+"  -> exit %s without the patch, exit %s with it"%(r0,r1),
         "cmake -G Ninja -B _build && cmake --build _build && ctest --test-dir _build -j8 with the patch: "+t.strip()],
  "detected_by":None},open(D+'/meta.json','w'),indent=1)
 PY
